@@ -307,6 +307,9 @@ def main(argv=None):
     if not drv_ok:
         obl["ok"] = False
         obl["problems"].append("model driver does not build:\n" + drv_log[-2000:])
+    # the case budget starts here: building and auditing the proof obligations (slow on a cold machine: the first
+    # import of the Mathlib modules after a restore can take minutes) must not eat the time meant for the cases
+    deadline = time.time() + budget
     rnd = random.Random(seed * 7919 + 17)
     corpus = load_corpus(pid)
     cases = list(corpus) + list(mod.cases(tier, rnd))
